@@ -287,7 +287,7 @@ func runC08(c *mon.Ctx) {
 	})
 
 	// sampled longer strings
-	c.Each("sampled-long", c.N(300_000, 5_000_000), func(i int64, r *mon.Rand) {
+	c.Each("sampled-long", c.N(300_000, 40_000_000), func(i int64, r *mon.Rand) {
 		n := r.Range(4, 64)
 		if r.P(1, 20) {
 			n = r.Range(65, 600)
